@@ -68,6 +68,9 @@ func check(t ev.TB, test string, c Case) {
 	if c.Compile {
 		ev.Label("compile-sampled")
 	}
+	if c.OutFile {
+		ev.Label("out-file-vs-stdout")
+	}
 	if nonTrivial(c) {
 		ev.Label("non-trivial")
 		ev.NonTrivial(key(c))
